@@ -55,6 +55,10 @@ def truthful_cols(c, z):
     return cols(c, z) == V.rcols(V.rows(z))
 
 
+def is_pj_b(c):
+    return B(smt.typ(c.self.z) == cid(c, "PartialJoin"))
+
+
 def register(reg):
     reg.load("ops", "payload", "names")
     P_ENG = ("C14",)
@@ -109,9 +113,16 @@ def register(reg):
     k.req("operation-valid-on-target", lambda c: B(V.uvalid(c.self.z, cols(c, c.target.z))))
     k.req("target-columns-truthful", lambda c: B(truthful_cols(c, c.target.z)))
     k.ens("result-rows-are-the-operation-applied", fin_post_rows)
-    k.ens("result-stays-in-the-targets-engine", lambda c: B(eng(c, c.result.z) == eng(c, c.target.z)))
+    is_pj = lambda c: smt.typ(c.self.z) == cid(c, "PartialJoin")  # noqa: E731
+    k.ens("result-stays-in-the-targets-engine", lambda c: B(z3.Implies(z3.Not(is_pj(c)), eng(c, c.result.z) == eng(c, c.target.z))))
     k.ens("result-columns-truthful", lambda c: B(truthful_cols(c, c.result.z)))
-    k.raises("EngineError", lambda c: B(z3.Not(V.supp(c.self.z, eng(c, c.target.z)))))
+    k.ens("identity-returns-the-target-itself", lambda c: B(z3.Implies(smt.typ(c.self.z) == cid(c, "Identity"), c.result.z == c.target.z)))
+    k.ens("a-join-lands-in-an-operand-engine",
+          lambda c: B(z3.Implies(is_pj(c), z3.Or(eng(c, c.result.z) == eng(c, c.target.z), eng(c, c.result.z) == eng(c, A(c, "PartialJoin", "fixed")(c.self.z))))))
+    k.raises("EngineError", lambda c: B(z3.Or(z3.Not(V.supp(c.self.z, eng(c, c.target.z))), is_pj(c))))
+    # a join is completed by BinaryOperation.apply, which validates it against both operands
+    k.raises("ColumnError", is_pj_b)
+    k.raises("RelationalAlgebraError", is_pj_b)
 
 
 # ====================================================================== _begin_apply / apply / engines
@@ -253,9 +264,14 @@ def register_engines(reg):
     k.req("operation-valid-on-target", lambda c: B(V.uvalid(c.operation.z, cols(c, c.target.z))))
     k.req("target-columns-truthful", lambda c: B(truthful_cols(c, c.target.z)))
     k.ens("rows-are-the-operation-applied", lambda c: B(V.rows(c.result.z) == V.sem(c.operation.z, V.rows(c.target.z))))
-    k.ens("stays-in-the-targets-engine", lambda c: B(eng(c, c.result.z) == eng(c, c.target.z)))
+    k.ens("stays-in-the-targets-engine", lambda c: B(z3.Implies(smt.typ(c.operation.z) != cid(c, "PartialJoin"), eng(c, c.result.z) == eng(c, c.target.z))))
     k.ens("result-columns-truthful", lambda c: B(truthful_cols(c, c.result.z)))
-    k.raises("EngineError", lambda c: B(z3.Not(V.supp(c.operation.z, eng(c, c.target.z)))))
+    k.ens("identity-returns-the-target-itself", lambda c: B(z3.Implies(smt.typ(c.operation.z) == cid(c, "Identity"), c.result.z == c.target.z)))
+    k.ens("a-join-lands-in-an-operand-engine",
+          lambda c: B(z3.Implies(smt.typ(c.operation.z) == cid(c, "PartialJoin"),
+                                 z3.Or(eng(c, c.result.z) == eng(c, c.target.z), eng(c, c.result.z) == eng(c, A(c, "PartialJoin", "fixed")(c.operation.z))))))
+    k.raises("EngineError", lambda c: B(z3.Or(z3.Not(V.supp(c.operation.z, eng(c, c.target.z))), smt.typ(c.operation.z) == cid(c, "PartialJoin"))))
+    k.raises("ColumnError", lambda c: B(smt.typ(c.operation.z) == cid(c, "PartialJoin")))
     k.raises("RelationalAlgebraError", lambda c: B(smt.typ(c.operation.z) == cid(c, "PartialJoin")))
 
     k = reg.contract("_engine:Engine.transfer", virtual=True, unverified_impls=("sql.",), properties=("C15", "C14", "C03"), note=SQL_UNVERIFIED)
@@ -263,9 +279,17 @@ def register_engines(reg):
     k.ens("same-rows-in-the-requested-engine", lambda c: B(z3.And(V.rows(c.result.z) == V.rows(c.target.z), eng(c, c.result.z) == c.self.z,
                                                                   cols(c, c.result.z) == cols(c, c.target.z), truthful_cols(c, c.result.z))))
     k.raises("EngineError", lambda c: B(c.payload.z != smt.NONE))
+    k.ens("transfer-to-the-current-engine-is-a-no-op",
+          lambda c: B(z3.Implies(z3.And(eng(c, c.target.z) == c.self.z, c.payload.z == smt.NONE,
+                                        c.ex.pure_symbol("_transfer:Transfer.simplify", [smt.Ref, smt.Ref], smt.Ref)(c.target.z, c.self.z) == smt.NONE),
+                                 c.result.z == c.target.z)))
+    k.ens("a-real-transfer-node-crosses-engines",
+          lambda c: B(z3.Implies(smt.typ(c.result.z) == cid(c, "Transfer"), A(c, "Transfer", "destination")(c.result.z) != eng(c, A(c, "MarkerRelation", "target")(c.result.z)))))
 
     k = reg.contract("_engine:Engine.materialize", virtual=True, unverified_impls=("sql.",), properties=("C15", "C19"), note=SQL_UNVERIFIED)
     k.ens("same-rows-same-engine", lambda c: B(z3.And(V.rows(c.result.z) == V.rows(c.target.z), eng(c, c.result.z) == eng(c, c.target.z))))
+    k.ens("leaves-and-materializations-are-not-materialized-again",
+          lambda c: B(z3.Implies(c.ex.pure_symbol("_materialization:Materialization.simplify", [smt.Ref], smt.BoolS)(c.target.z), c.result.z == c.target.z)))
     k.raises("RelationalAlgebraError", None)
 
     def bt_cells(c):
@@ -285,12 +309,17 @@ def register_engines(reg):
     k.req("operation-valid-at-the-root", lambda c: B(V.uvalid(c.operation.z, cols(c, c.tree.z))))
     k.req("tree-columns-truthful", lambda c: B(truthful_cols(c, c.tree.z)))
     k.req("join-unshadowed", lambda c: B(pj_unshadowed(c, c.operation.z, c.tree.z)))
+    k.req("join-prefers-its-fixed-operands-engine",
+          lambda c: B(z3.Implies(smt.typ(c.operation.z) == cid(c, "PartialJoin"), eng(c, A(c, "PartialJoin", "fixed")(c.operation.z)) == c.preferred.z)))
     k.req("join-resolved", lambda c: B(z3.Implies(smt.typ(c.operation.z) == cid(c, "PartialJoin"),
                                                   z3.And(A(c, "Join", "max_columns")(A(c, "PartialJoin", "binary")(c.operation.z)) == smt.OptTagSet.ots_some(A(c, "Join", "min_columns")(A(c, "PartialJoin", "binary")(c.operation.z))),
                                                          z3.IsSubset(A(c, "Join", "min_columns")(A(c, "PartialJoin", "binary")(c.operation.z)), cols(c, A(c, "PartialJoin", "fixed")(c.operation.z)))))))
     new = lambda c: c.result.items[0].z  # noqa: E731
     done = lambda c: c.result.items[1].z  # noqa: E731
-    k.ens("stays-in-the-trees-engine", lambda c: B(z3.And(eng(c, new(c)) == eng(c, c.tree.z), truthful_cols(c, new(c)))))
+    k.ens("stays-in-the-trees-engine",
+          lambda c: B(z3.And(z3.Implies(smt.typ(c.operation.z) != cid(c, "PartialJoin"), eng(c, new(c)) == eng(c, c.tree.z)), truthful_cols(c, new(c)))))
+    k.ens("a-join-stays-in-the-trees-engine-too",
+          lambda c: B(z3.Implies(smt.typ(c.operation.z) == cid(c, "PartialJoin"), eng(c, new(c)) == eng(c, c.tree.z))))
     k.ens("full-success-means-operation-applied", lambda c: B(z3.Implies(done(c), V.rows(new(c)) == V.sem(c.operation.z, V.rows(c.tree.z)))))
     def narrowed(c):
         P = A(c, "Projection", "columns")(c.operation.z)
@@ -307,9 +336,22 @@ def register_engines(reg):
     k = reg.contract("_unary_operation:UnaryOperation.apply", properties=("C03", "C14", "C20"))
     k.req("target-columns-truthful", lambda c: B(truthful_cols(c, c.target.z)))
     k.req("join-unshadowed", lambda c: B(pj_unshadowed(c, c.self.z, c.target.z)))
+    k.req("join-prefers-its-fixed-operands-engine",
+          lambda c: B(z3.Implies(smt.typ(c.self.z) == cid(c, "PartialJoin"),
+                                 z3.Or(c.preferred_engine.z == smt.NONE, c.preferred_engine.z == eng(c, A(c, "PartialJoin", "fixed")(c.self.z))))))
     k.ens("content-is-the-operation-applied-at-the-root", lambda c: B(V.rows(c.result.z) == V.sem(c.self.z, V.rows(c.target.z))))
     k.ens("result-columns-truthful", lambda c: B(truthful_cols(c, c.result.z)))
-    k.ens("without-transfer-the-result-stays-in-the-targets-engine", lambda c: B(z3.Implies(z3.Not(c.transfer.z), eng(c, c.result.z) == eng(c, c.target.z))))
+    k.ens("without-transfer-the-result-stays-in-the-targets-engine",
+          lambda c: B(z3.Implies(z3.And(z3.Not(c.transfer.z), smt.typ(c.self.z) != cid(c, "PartialJoin")), eng(c, c.result.z) == eng(c, c.target.z))))
+    def begin_op(c):
+        f = c.ex.pure_symbol("_unary_operation:UnaryOperation._begin_apply#0", [smt.Ref, smt.Ref, smt.Ref], smt.Ref)
+        return f(c.self.z, c.target.z, c.preferred_engine.z)
+
+    k.ens("documented-no-op-returns-the-relation-itself",
+          lambda c: B(z3.Implies(z3.And(smt.typ(begin_op(c)) == cid(c, "Identity"), smt.typ(c.self.z) != cid(c, "Identity")), c.result.z == c.target.z)))
+    k.ens("a-join-lands-in-an-operand-engine",
+          lambda c: B(z3.Implies(z3.And(z3.Not(c.transfer.z), smt.typ(c.self.z) == cid(c, "PartialJoin")),
+                                 z3.Or(eng(c, c.result.z) == eng(c, c.target.z), eng(c, c.result.z) == eng(c, A(c, "PartialJoin", "fixed")(c.self.z))))))
     k.must("ill-formed-request-rejected-whatever-the-options", "ColumnError", lambda c: B(ill_formed(c, c.self.z, cols(c, c.target.z))))
     k.raises("ColumnError", lambda c: B(z3.Or(z3.Not(V.uvalid(c.self.z, cols(c, c.target.z))), smt.typ(c.self.z) == cid(c, "PartialJoin"))))
     k.raises("EngineError", None)
